@@ -12,6 +12,10 @@ integer coordinates (C11 `add_double_total`, after `fix:` D3).
 import ParanoidModel.Proofs.Totality
 import ParanoidModel.Props.C19
 import ParanoidModel.Props.C03
+import ParanoidModel.Props.C11
+import ParanoidModel.Props.C10
+import ParanoidModel.Props.C02S
+import ParanoidModel.Props.C08
 namespace Paranoid.C18
 open Paranoid
 
@@ -74,5 +78,47 @@ theorem checkGCD_total (ns : List Nat) (hpos : ∀ n ∈ ns, 0 < n) : ∃ r, che
 
 theorem checkGCDN1_total (bound : Nat) (ns : List Nat) (hpos : ∀ n ∈ ns, 2 ≤ n) :
     ∃ r, checkGCDN1 bound ns = .ok r := ⟨_, C03.checkGCDN1_spec bound ns hpos⟩
+
+/-! ### EC keys -/
+
+section ec
+open Paranoid.Ec Paranoid.Bsgs
+
+/-- `CheckWeakECPrivateKey` on ANY batch (any mixture of curve ids incl. unknown / binary-field
+ones, any coordinates satisfying the side conditions `WKHyp` of the model: on-curve points for
+the known curves) returns one verdict per key and never raises. -/
+theorem weakECPrivateKey_total (f : Bsgs.Factory) (sts : List EcState) (orc : List (Nat × Nat))
+    (keys : List ECKey) (hnd : (f.map (·.id)).Nodup) (hh : WKHyp keys f sts orc) :
+    ∃ res sts', checkWeakECPrivateKey f sts orc keys = .ok (res, sts') ∧ res.length = keys.length := by
+  obtain ⟨res, sts', h1, h2, _⟩ := C10.checkWeakECPrivateKey_spec f sts orc keys hnd hh
+  exact ⟨res, sts', h1, h2⟩
+
+theorem smallDifference_total (f : Bsgs.Factory) (sts : List EcState) (ms : List Nat)
+    (keys : List ECKey) (maxDiff : Nat) (hnd : (f.map (·.id)).Nodup)
+    (hh : SDHyp keys maxDiff f sts ms) :
+    ∃ res sts', checkECKeySmallDifference f sts ms keys maxDiff = .ok (res, sts') ∧
+      res.length = keys.length := by
+  obtain ⟨res, sts', h1, h2, _⟩ := C10.checkECKeySmallDifference_spec f sts ms keys maxDiff hnd hh
+  exact ⟨res, sts', h1, h2⟩
+
+end ec
+
+/-! ### ECDSA signatures -/
+
+section ecdsa
+open Paranoid.EcdsaChecks
+
+/-- the nonce / LCG / U2F checks never raise when `s` is invertible modulo the order of the
+signature's curve (`r, s ∈ [1, n-1]` with `n` prime: `C02S.wf_of_range`) — any `r`, any hash
+length, any issuer key (invalid, unreduced, `(0,0)`), any curve id, any batch size, any solver
+answers. `CheckCr50U2f` needs no condition at all. -/
+theorem sig_checks_total (k : Kind) (O : Nat → GroupOracle) (factory : EcdsaChecks.Factory)
+    (arts : List Sig) (hF : FactoryOK factory) (hcons : UniqConsistent O arts factory)
+    (hwf : k ≠ .cr50 → ∀ s ∈ arts, ∀ obj, (s.curve, some obj) ∈ factory →
+      Int.gcd (bytes2int s.s : Int) obj.curve.n = 1) :
+    ∃ res, check k O factory arts = .ok res :=
+  C02S.check_total k O factory arts hF hcons hwf
+
+end ecdsa
 
 end Paranoid.C18
